@@ -494,6 +494,113 @@ fn runtime_probe(req: &Value) -> Value {
     json!({"ok": true, "runs": out})
 }
 
+/// Batch of step sequences fed to a fresh `LoopDetector` (default configuration) through the public
+/// `record_step`; the detector's `last_report()` is returned as the crate serialises it (`LoopReport:
+/// Serialize`), or null when no loop was reported.  Step = [pc_before, pc_after, opcode, instr_len,
+/// in_interrupt (0/1, optional)].
+fn loop_feed(req: &Value) -> Value {
+    let empty: Vec<Value> = Vec::new();
+    let runs = req.get("runs").and_then(|v| v.as_array()).unwrap_or(&empty);
+    let mut out: Vec<Value> = Vec::with_capacity(runs.len());
+    for run in runs {
+        let mut det = sc62015_core::LoopDetector::new(sc62015_core::LoopDetectorConfig::default());
+        let steps = run.get("steps").and_then(|v| v.as_array()).unwrap_or(&empty);
+        for s in steps {
+            let g = |i: usize| s.get(i).and_then(|x| x.as_u64()).unwrap_or(0);
+            det.record_step(sc62015_core::LoopStep {
+                pc_before: g(0) as u32,
+                pc_after: g(1) as u32,
+                opcode: g(2) as u8,
+                instr_len: g(3) as u8,
+                in_interrupt: g(4) != 0,
+                irq_source: None,
+            });
+        }
+        out.push(match det.last_report() {
+            Some(r) => serde_json::to_value(r).unwrap_or(Value::Null),
+            None => Value::Null,
+        });
+    }
+    json!({"ok": true, "reports": out})
+}
+
+/// Batch of independent program runs through `CoreRuntime::step`, one instruction at a time ("bulk": the
+/// whole run as one `step(steps)` call).  Per run:
+/// "code" planted at "pc" (external memory), "regs", "steps", and the switches "loop_detector" (calls the
+/// public `enable_loop_detector(LoopDetectorConfig::default())`), "call_level" (initial
+/// `set_call_depth`/`set_call_sub_level`), "in_interrupt" (initial value of the pub `timer.in_interrupt`).
+/// Reported per run: per step [pc, cycle_count, call_depth, call_sub_level, timer.in_interrupt, halted],
+/// the first error, and the loop detector's `last_report()` as the crate serialises it.
+fn runtime_trace(req: &Value) -> Value {
+    let empty: Vec<Value> = Vec::new();
+    let runs = req.get("runs").and_then(|v| v.as_array()).unwrap_or(&empty);
+    let mut out: Vec<Value> = Vec::with_capacity(runs.len());
+    for run in runs {
+        let mut rt = CoreRuntime::new();
+        let pc = get_u32(run, "pc", 0x10000);
+        if let Some(code) = run.get("code").and_then(|v| v.as_array()) {
+            for (i, b) in code.iter().enumerate() {
+                rt.memory
+                    .write_external_byte(pc + i as u32, b.as_u64().unwrap_or(0) as u8);
+            }
+        }
+        for (a, v) in mem_pairs(run) {
+            if MemoryImage::is_internal(a) {
+                rt.memory.write_internal_byte(a - memory::INTERNAL_MEMORY_START, v);
+            } else {
+                rt.memory.write_external_byte(a, v);
+            }
+        }
+        if let Some(regs) = run.get("regs").and_then(|v| v.as_object()) {
+            for (k, v) in regs.iter() {
+                if let Some(x) = v.as_u64() {
+                    rt.set_reg(k, x as u32);
+                }
+            }
+        }
+        rt.set_reg("PC", pc);
+        if run.get("loop_detector").and_then(|v| v.as_bool()).unwrap_or(false) {
+            rt.enable_loop_detector(sc62015_core::LoopDetectorConfig::default());
+        }
+        if let Some(level) = run.get("call_level").and_then(|v| v.as_u64()) {
+            rt.state.set_call_depth(level as u32);
+            rt.state.set_call_sub_level(level as u32);
+        }
+        if let Some(flag) = run.get("in_interrupt").and_then(|v| v.as_bool()) {
+            rt.timer.in_interrupt = flag;
+        }
+        let snap = |rt: &CoreRuntime| {
+            json!([rt.get_reg("PC"), rt.cycle_count(), rt.state.call_depth(), rt.state.call_sub_level(),
+                   rt.timer.in_interrupt, rt.state.is_halted()])
+        };
+        let mut trace: Vec<Value> = vec![snap(&rt)];
+        let mut error = Value::Null;
+        let bulk = run.get("bulk").and_then(|v| v.as_bool()).unwrap_or(false);
+        let total = get_u32(run, "steps", 1);
+        for _ in 0..(if bulk { 1 } else { total }) {
+            let n = if bulk { total as usize } else { 1 };
+            let r = std::panic::catch_unwind(std::panic::AssertUnwindSafe(|| rt.step(n)));
+            match r {
+                Ok(Ok(())) => trace.push(snap(&rt)),
+                Ok(Err(e)) => {
+                    error = json!(format!("{e}"));
+                    break;
+                }
+                Err(_) => {
+                    error = json!("panic");
+                    break;
+                }
+            }
+        }
+        let report = match rt.loop_detector().and_then(|d| d.last_report()) {
+            Some(r) => serde_json::to_value(r).unwrap_or(Value::Null),
+            None => Value::Null,
+        };
+        out.push(json!({"trace": trace, "err": error, "report": report}));
+    }
+    json!({"ok": true, "runs": out})
+}
+
 pub fn handle(verb: &str, req: &Value) -> Value {
     match verb {
         "timer_isr" => timer_isr(req),
@@ -506,6 +613,8 @@ pub fn handle(verb: &str, req: &Value) -> Value {
         "snapshot_unpack" => snapshot_unpack(req),
         "kio_tables" => kio_tables(req),
         "runtime_probe" => runtime_probe(req),
+        "loop_feed" => loop_feed(req),
+        "runtime_trace" => runtime_trace(req),
         _ => err(format!("unknown c17 verb {verb}")),
     }
 }
